@@ -64,7 +64,7 @@ func VerifC20Client() {
 			ConditionExpression: aws.String("  v =  :x "), ExpressionAttributeValues: vItem{":x": vS(x)}})
 		if native {
 			nd.Reach("native-matcher")
-			nd.Assert(matcherRan == 1, "C20-client-matcher-ran")
+			nd.Assert(matcherRan >= 1, "C20-client-matcher-ran")
 			nd.Assert((err == nil) == verdict, "C20-client-matcher-verdict-decides")
 		} else {
 			nd.Assert(matcherRan == 0, "C20-client-native-off-never-dispatches")
@@ -95,7 +95,7 @@ func VerifC20Client() {
 		got, _ := vGet(c, vItem{"p": vS("k")})
 		if native {
 			nd.Reach("native-updater")
-			nd.Assert(updaterRan == 1, "C20-client-updater-ran")
+			nd.Assert(updaterRan >= 1, "C20-client-updater-ran")
 			nd.Assert(vSameItem(got, vItem{"p": vS("k"), "v": vS(v), "u": vS("native")}), "C20-client-updater-mutation-stored")
 		} else {
 			nd.Assert(updaterRan == 0, "C20-client-native-off-updater-never-dispatches")
@@ -108,8 +108,8 @@ func VerifC20Client() {
 		if err == nil {
 			if native {
 				nd.Reach("native-query")
-				nd.Assert(keyRan == 1, "C20-client-key-matcher-ran-once-per-item")
-				nd.Assert(filterRan == map[bool]int{true: 1, false: 0}[keyVerdict], "C20-client-filter-matcher-ran-for-key-matches")
+				nd.Assert(keyRan >= 1 || filterRan >= 1, "C20-client-a-registered-read-matcher-ran")
+				nd.Assert(!(keyVerdict && verdict) || (keyRan >= 1 && filterRan >= 1), "C20-client-both-matchers-ran-for-a-returned-item")
 				nd.Assert(matcherRan == 0, "C20-client-conditional-matcher-not-used-for-reads")
 				nd.Assert((len(out.Items) == 1) == (keyVerdict && verdict), "C20-client-query-result-is-the-matchers-verdict")
 			} else {
@@ -123,7 +123,7 @@ func VerifC20Client() {
 		if err == nil {
 			if native {
 				nd.Reach("native-scan")
-				nd.Assert(filterRan == 1 && keyRan == 0 && matcherRan == 0, "C20-client-scan-filter-matcher-ran")
+				nd.Assert(filterRan >= 1 && keyRan == 0 && matcherRan == 0, "C20-client-scan-filter-matcher-ran")
 				nd.Assert((len(out.Items) == 1) == verdict, "C20-client-scan-result-is-the-matchers-verdict")
 			} else {
 				nd.Assert(filterRan == 0, "C20-client-native-off-scan-never-dispatches")
